@@ -992,8 +992,17 @@ def consider_entry_fns(A, sk):
         for v in run.by_kind("push_signal"):
             if sk in v["kinds"] and v["container"] != "queue" and is_role(v["key"], "sigtarget"):
                 ch = run.chain(v)
-                # ch[0] is the processor itself; the next activation is the consider logic's entry
-                if len(ch) >= 2 and ch[0][1] == sp.name:
+                # the activation that hands out the signals (it binds the signal's job) and everything above it belong to the
+                # processor; the next activation below is the consider logic's entry
+                sym = v["key"][0]
+                bind_fid = sym[1] if (isinstance(sym, tuple) and sym[0] == "b") else None
+                pos = None
+                for i_, c_ in enumerate(ch):
+                    if c_[0] == bind_fid:
+                        pos = i_
+                if pos is not None and pos + 1 < len(ch):
+                    out.add(ch[pos + 1][1])
+                elif len(ch) >= 2 and ch[0][1] == sp.name:
                     out.add(ch[1][1])
                 else:
                     out.add(v["fn"])
@@ -1091,44 +1100,11 @@ def rule_history_after_any_outcome(A, R, rule):
 
 
 def continues(A, run):
-    """Did the handler accept the signal?  After a signal was handed out (a signal-target key was bound in the processor's
-    activation), can the processor still reach a regular return along edges the abstract run took, without passing an
-    error construction / `?` propagation?  (A rejecting handler leaves only error paths.)"""
-    from rules_more import residual_blocks
-    sp = A.signal_processor()
-    idx = run._index()
-    fid0 = idx.get((sp.name, ()))
-    heads = set()
-    transfer = set()
-    for k, v in run.facts.items():
-        ki = v.get("key") if isinstance(v, dict) else None
-        if isinstance(ki, tuple) and len(ki) == 2 and isinstance(ki[0], tuple) and ki[0][:2] == ("b", fid0) and is_role(ki, "sigtarget"):
-            if k[0] == "push_signal" and v.get("container") == "queue" and v["fid"] == fid0:
-                transfer.add(ki[0][2])      # the loop that moves the new signals into the queue
-            else:
-                heads.add(ki[0][2])
-    heads -= transfer
-    if not heads:
-        # no fact mentions the target (the handler ignores the signal): take the iterator steps yielding Signal values
-        for blk in sp.blocks:
-            t = blk["term"]["t"]
-            if not blk["cleanup"] and t["k"] == "call" and (M.callee_name(t) or "").endswith("::next") and not t["dest"]["p"] \
-                    and A.L.signal_ty in sp.locals[t["dest"]["l"]]["s"] and blk["i"] not in transfer:
-                heads.add(blk["i"])
-    if not heads:
-        raise Imprecision("cannot find the loop that hands out the signals")
-    errs = error_exit_blocks(A, sp) | residual_blocks(sp)
-    for h in heads:
-        t = sp.term(h)
-        if t["k"] != "call" or t["t"] < 0:
-            continue
-        sw = t["t"]
-        loop = sp.natural_loop(h)
-        for s0 in [s_ for s_ in sp.succs(sw) if s_ in loop]:
-            r = run.taken_reachable(fid0, s0, errs)
-            if "return" in r or h in r:
-                return True
-    return False
+    """Did the handler accept the signal?  After a signal was handed out, can the processor take the next one (reach the head of
+    the loop that binds the signal's job again) along edges the abstract run took, without passing an error construction / `?`
+    propagation?  (A rejecting handler leaves only error paths.)"""
+    from rules_more import iteration_completes
+    return iteration_completes(A, run)
 
 
 def unwrap_of_lookup(A, fn, bb):
